@@ -31,6 +31,11 @@
 (*  Uncovered{type, method}   exported API outside the alphabet: must be   *)
 (*                            in Excluded (with its reason)                *)
 (*  Panic                     no action: rejected                          *)
+(*  Hang{where}               no action: rejected.  A call on the object   *)
+(*                            blocked for ever (the driver's watchdog gave *)
+(*                            the history up), e.g. on a lock that an      *)
+(*                            earlier use left held: a fresh object never  *)
+(*                            blocks its user.                             *)
 (*                                                                         *)
 (* The specification's Acquire allows any pooled or new object, so a pool  *)
 (* miss can never reject a trace.  In "conc" histories the EndConn line of *)
